@@ -67,14 +67,14 @@ Print Assumptions C13_noncanonical_v_rejected.
 Theorem C13_verify_multiattr_accepts :
   forall (CS : clsuite) sg pk bases msgs,
   verify_multiattr CS sg pk bases msgs = Ok true ->
-  (two (le CS - 1) < s_e sg)%Z /\ (0 < s_v sg < pk_N pk)%Z /\ forallb (msg_in_range CS) msgs = true /\
+  (two (le CS - 1) < s_e sg < two (le CS))%Z /\ (0 < s_v sg < pk_N pk)%Z /\ forallb (msg_in_range CS) msgs = true /\
   exists lhs r0 bs, pow_mod (s_v sg) (s_e sg) (pk_N pk) = Ok lhs /\ prod_pows bases msgs (pk_N pk) 1 = Ok r0 /\
     pow_mod (pk_b pk) (s_s sg) (pk_N pk) = Ok bs /\ lhs = Z.rem (r0 * bs * pk_c pk) (pk_N pk).
 Proof. exact verify_multiattr_accepts. Qed.
 Check (C13_verify_multiattr_accepts :
   forall (CS : clsuite) sg pk bases msgs,
   verify_multiattr CS sg pk bases msgs = Ok true ->
-  (two (le CS - 1) < s_e sg)%Z /\ (0 < s_v sg < pk_N pk)%Z /\ forallb (msg_in_range CS) msgs = true /\
+  (two (le CS - 1) < s_e sg < two (le CS))%Z /\ (0 < s_v sg < pk_N pk)%Z /\ forallb (msg_in_range CS) msgs = true /\
   exists lhs r0 bs, pow_mod (s_v sg) (s_e sg) (pk_N pk) = Ok lhs /\ prod_pows bases msgs (pk_N pk) 1 = Ok r0 /\
     pow_mod (pk_b pk) (s_s sg) (pk_N pk) = Ok bs /\ lhs = Z.rem (r0 * bs * pk_c pk) (pk_N pk)).
 Print Assumptions C13_verify_multiattr_accepts.
